@@ -21,7 +21,11 @@ ParaVecs == {[k |-> "write", paras |-> <<P1(v)>>] : v \in Values}
        \cup {[k |-> "write", paras |-> ps] : ps \in {<<P1(<<97>>), PE, P1(<<98>>)>>, <<PE, P1(<<97>>), P1(<<98>>)>>, <<P1(<<97>>), P1(<<98>>), PE>>,
                                                     <<P1(<<97>>), PE, PE, P2(<<98>>, <<99>>)>>, <<PE>>, <<PE, PE, P1(<<97>>)>>}}
 
+\* a sink that refuses its k-th Write: three paragraphs of two fields, every k up to the number of writes a faithful
+\* writer may issue, through the Encoder and through WriteTo
+FaultVecs == {[k |-> "write_fault", paras |-> <<P2(<<111, 110, 101>>, <<97>>), P2(<<116, 119, 111>>, <<98, LF, 99>>), P2(<<116, 104, 114, 101, 101>>, <<100>>)>>,
+               fail_at |-> n, via |-> v] : n \in 1..12, v \in {"encoder", "writeto"}}
 ASSUME Emit(CASE Mode = "tokdocs"  -> SetToSeq({[k |-> Kind, doc |-> d] : d \in TokDocs})
               [] Mode = "bytedocs" -> SetToSeq({[k |-> Kind, doc |-> d] : d \in ByteDocs})
-              [] Mode = "paras"    -> SetToSeq(ParaVecs))
+              [] Mode = "paras"    -> SetToSeq(ParaVecs) \o SetToSeq(FaultVecs))
 =============================================================================
